@@ -5,6 +5,7 @@ from rules.common import (opmap, PredTrue, PredFalse, TryOk, CallTrue, EQ, Varia
                           effects_signature, overrides)
 from rules.C15 import FARM_OWNER
 from base import CutPolicy, dep_origins
+from rules.common import rel, rel_sign, om, find_rel
 from absint import EMPTY, vfield, tagvals, const_of
 
 EXPLANATION = ("static analysis (MIR abstract interpretation): every creation / expansion precondition individually cuts the FARMS write; "
@@ -28,7 +29,7 @@ FLOORS = {"CUT-create-farm": 9, "CUT-expand-farm": 7, "ACUT-zero-fee": 1}
 
 ASSUME_FEE_ZERO = [PredFalse("assume fee.amount.is_zero()", pred_test("is_zero", FEE_A)),
                    PredFalse("assume fee.amount == 0", eq_test(FEE_A, r"^Const\(0\)$")),
-                   PredTrue("assume !(fee.amount > 0)", lambda pn, pa: pn in ("gt",) and origin_match(pa[0], FEE_A))]
+                   PredTrue("assume !(fee.amount > 0)", rel(FEE_A, ">", r"^Const\(0\)$"))]
 ASSUME_DENOMS_DIFFER = [PredTrue("assume fee.denom != asset.denom", eq_test(FEE_D, r"\.params\.farm_asset\.denom$"))]
 ASSUME_DENOMS_SAME = [PredFalse("assume fee.denom == asset.denom", eq_test(FEE_D, r"\.params\.farm_asset\.denom$"))]
 
@@ -46,9 +47,8 @@ def run(W, chk):
     # ------------------------------------------------------------ creation guards
     guards = [
         ("lp denom from pool manager", [TryOk(r"farm_manager::helpers::validate_lp_denom$")], ()),
-        ("farm limit", [PredTrue("farms.len() < max_concurrent_farms", lambda pn, pa: pn == "lt" and origin_match(pa[0], r"^Store\(FARMS\)") and
-                                 origin_match(pa[1], r"^Store\(CONFIG\)\.max_concurrent_farms$"))], ()),
-        ("min amount", [PredTrue("amount >= MIN_FARM_AMOUNT", lambda pn, pa: pn == "ge" and origin_match(pa[0], MP + r"\.farm_asset\.amount$"))], ()),
+        ("farm limit", [PredTrue("farms.len() < max_concurrent_farms", rel(r"^Store\(FARMS\)", "<", r"^Store\(CONFIG\)\.max_concurrent_farms$"))], ()),
+        ("min amount", [PredTrue("amount >= MIN_FARM_AMOUNT", rel(MP + r"\.farm_asset\.amount$", ">=", r"^Const\("))], ()),
         ("asset sent", [TryOk(r"farm_manager::helpers::assert_farm_asset$")], ()),
         ("epochs valid", [TryOk(r"farm_manager::helpers::validate_farm_epochs$")], ()),
         ("identifier valid", [TryOk(r"farm_manager::helpers::validate_identifier$")], ()),
@@ -130,8 +130,7 @@ def run(W, chk):
     # ------------------------------------------------------------ expand
     eg = [
         ("owner", [FARM_OWNER]),
-        ("not ended", [PredTrue("current.id < preliminary_end_epoch", lambda pn, pa: pn == "lt" and origin_match(pa[0], r"^Query\(CurrentEpoch\)\.id$") and
-                                origin_match(pa[1], r"^Store\(FARMS\)\.preliminary_end_epoch$"))]),
+        ("not ended", [PredTrue("current.id < preliminary_end_epoch", rel(r"^Query\(CurrentEpoch\)\.id$", "<", r"^Store\(FARMS\)\.preliminary_end_epoch$"))]),
         ("not expired", [CallTrue(r"farm_manager::helpers::is_farm_expired$", "!is_farm_expired", False)]),
         ("lp denom", [TryOk(r"farm_manager::helpers::validate_lp_denom$")]),
         ("attached == declared", [PredTrue("one_coin == params.farm_asset", eq_test(r"^info\.funds\[\*\]$", XP + r"\.farm_asset$"))]),
@@ -162,8 +161,7 @@ def run(W, chk):
     commit(chk, A, "close_farm")
 
     # ------------------------------------------------------------ max_concurrent_farms may only grow
-    g = PredTrue("new max >= old max", lambda pn, pa: pn == "ge" and origin_match(pa[0], r"^msg\.UpdateConfig\.max_concurrent_farms$") and
-                 origin_match(pa[1], r"^Store\(CONFIG\)\.max_concurrent_farms$"))
+    g = PredTrue("new max >= old max", rel(r"^msg\.UpdateConfig\.max_concurrent_farms$", ">=", r"^Store\(CONFIG\)\.max_concurrent_farms$"))
     pol = CutPolicy([g])
     A = W.run(fm, "execute", ("UpdateConfig",), pol)
     bad = []
